@@ -110,6 +110,7 @@ pub fn run(p: &Params) -> Run {
         let q = *rng.pick(SPLIT_QUERIES);
         one_case(&mut run, SPLIT_DEF, q, !q.starts_with("SELECT a, b") && !q.starts_with("SELECT input") && !q.starts_with("SELECT DISTINCT") && !q.starts_with("SELECT *"), &lines);
     }
+    run.notes.push("targeted streams: HAVING over one aggregate of every kind with thresholds inside the data range and alternating low/high values (the outcome flips as lines arrive); a split table that admits the empty line (the first k lines must count empty lines in batch mode as line-at-a-time does)".to_owned());
     run.notes.push("statements without LIMIT (SELECT and aggregate, DISTINCT, HAVING) fed line by line with the default config; every prefix compared with a fresh batch run".to_owned());
     run
 }
